@@ -255,12 +255,9 @@ Proof.
                  <= 2 * (k * k + 1) * (fr_norm2 v1 + fr_norm2 v2)).
   { rewrite blend_R. unfold fr_norm2 at 1. cbn [fst snd].
     destruct v1 as [v1l v1r], v2 as [v2l v2r]. unfold fzero. cbn [fst snd].
-    set (ol := fst (match m with LowPass => (v2l, v2r) | BandPass => (v1l, v1r)
-                    | HighPass => fr_sub (fr_sub (0, 0) (fr_scale (v1l, v1r) k)) (v2l, v2r)
-                    | Notch => fr_sub (0, 0) (fr_scale (v1l, v1r) k) end)).
-    set (or_ := snd (match m with LowPass => (v2l, v2r) | BandPass => (v1l, v1r)
-                     | HighPass => fr_sub (fr_sub (0, 0) (fr_scale (v1l, v1r) k)) (v2l, v2r)
-                     | Notch => fr_sub (0, 0) (fr_scale (v1l, v1r) k) end)).
+    match goal with
+    | |- spec_mix ?a 0 mix * _ + spec_mix ?b 0 mix * _ <= _ => set (ol := a); set (or_ := b)
+    end.
     pose proof (spec_mix_zero_dry ol mix) as Bl. pose proof (spec_mix_zero_dry or_ mix) as Br.
     assert (Hl : ol * ol <= 2 * (k * k + 1) * (v1l * v1l + v2l * v2l)).
     { unfold ol. destruct m; unfold fr_sub, fr_scale; cbn [fst snd osub omul Ops_R];
